@@ -2184,9 +2184,16 @@ fn generate_expression(
                     name => panic!("Unimplemented global intrinsic: {}", name),
                 }
             } else {
-                ast::Expression::Identifier(ast::ScopedIdentifier::trivial(
-                    context.get_global_name(*v)?,
-                ))
+                match context.global_variable_modes.get(v) {
+                    // Constants are declared inside their namespace so need the full name
+                    Some(GlobalMode::Constant) => ast::Expression::Identifier(
+                        scoped_name_to_identifier(context.get_global_name_full(*v)?),
+                    ),
+                    // Other globals are passed into the function as a parameter
+                    _ => ast::Expression::Identifier(ast::ScopedIdentifier::trivial(
+                        context.get_global_name(*v)?,
+                    )),
+                }
             }
         }
         ir::Expression::ConstantVariable(_) => {
@@ -4460,6 +4467,14 @@ impl<'m> GenerateContext<'m> {
     fn get_global_name(&self, id: ir::GlobalId) -> Result<&str, GenerateError> {
         assert!(!self.module.global_registry[id.0 as usize].is_intrinsic);
         Ok(self.name_map.get_name_leaf(NameSymbol::GlobalVariable(id)))
+    }
+
+    /// Get the full name of a global variable
+    fn get_global_name_full(&self, id: ir::GlobalId) -> Result<ScopedName, GenerateError> {
+        assert!(!self.module.global_registry[id.0 as usize].is_intrinsic);
+        Ok(self
+            .name_map
+            .get_name_qualified(NameSymbol::GlobalVariable(id)))
     }
 
     /// Get the name of a function
